@@ -350,6 +350,33 @@ func DecodeWith(c *arrow_record.Consumer, sig canon.Signal, bar *colarspb.BatchA
 	return
 }
 
+// DecodeCount decodes bar and returns only the number of items (no canonicalisation).
+func DecodeCount(c *arrow_record.Consumer, sig canon.Signal, bar *colarspb.BatchArrowRecords) (items int, err error, pi *PanicInfo) {
+	pi = capture(func() {
+		switch sig {
+		case canon.Traces:
+			var out []ptrace.Traces
+			out, err = c.TracesFrom(bar)
+			for _, t := range out {
+				items += t.SpanCount()
+			}
+		case canon.Logs:
+			var out []plog.Logs
+			out, err = c.LogsFrom(bar)
+			for _, t := range out {
+				items += t.LogRecordCount()
+			}
+		default:
+			var out []pmetric.Metrics
+			out, err = c.MetricsFrom(bar)
+			for _, t := range out {
+				items += t.MetricCount()
+			}
+		}
+	})
+	return
+}
+
 func (s *Stream) Decode(sig canon.Signal, bar *colarspb.BatchArrowRecords) (*canon.Set, int, error, *PanicInfo) {
 	return DecodeWith(s.C, sig, bar)
 }
